@@ -4,7 +4,11 @@ import json
 import re
 from collections import Counter
 
-from labtech.diagram import TaskStructure, build_task_diagram
+from labtech.diagram import build_task_diagram
+try:
+    from labtech.diagram import TaskStructure
+except ImportError:
+    TaskStructure = None
 from labtech.tasks import find_tasks_in_param
 from labtech.types import is_task
 
@@ -59,10 +63,36 @@ def fullname(cls):
 
 
 def observed_struct(tasks):
-    ts = TaskStructure.build(tasks)
-    out = []
-    for ty, rels in ts.task_type_to_rels.items():
-        out.append([fullname(ty), [[k.from_param_name, fullname(k.to_task_type), bool(i.multi_cardinality)] for k, i in rels.items()]])
+    """The structure labtech derives: read from TaskStructure when it has the layout this harness knows, and otherwise parsed
+    back from the public build_task_diagram text (class blocks in order; arrows in order under their dependent type)."""
+    try:
+        ts = TaskStructure.build(tasks)
+        out = []
+        for ty, rels in ts.task_type_to_rels.items():
+            out.append([fullname(ty), [[k.from_param_name, fullname(k.to_task_type), bool(i.multi_cardinality)] for k, i in rels.items()]])
+        return out
+    except (AttributeError, TypeError, ValueError):
+        return struct_from_text(tasks, build_task_diagram(tasks))
+
+
+def struct_from_text(tasks, text):
+    names = {}
+    for t in reachable(tasks):
+        for nm in {type(t).__qualname__, type(t).__name__}:
+            names.setdefault(nm, set()).add(fullname(type(t)))
+
+    def full(nm):
+        if len(names.get(nm, ())) != 1:
+            raise ValueError(f'diagram names a type that is not a unique reachable task type: {nm}')
+        return next(iter(names[nm]))
+    out, index = [], {}
+    for l in (l.strip() for l in text.splitlines()):
+        if l.startswith('class ') and not l.startswith('classDiagram'):
+            index[l[len('class '):]] = len(out)
+            out.append([full(l[len('class '):]), []])
+        m = re.match(r'^(\S+) <-- ("many" )?(\S+): (\w+)$', l)
+        if m:
+            out[index[m.group(1)]][1].append([m.group(4), full(m.group(3)), bool(m.group(2))])
     return out
 
 
